@@ -56,11 +56,20 @@ def lake_build():
     """(ok, log).  A failing build is a broken proof obligation (or model), not an infra failure,
     unless lake itself is missing."""
     t0 = time.time()
+    # several checks may run at once (the seeded matrix, agents): one `lake build` at a time on this tree
+    import fcntl
+    lock = open(os.path.join(LEAN, ".build.lock"), "w")
     try:
+        fcntl.flock(lock, fcntl.LOCK_EX)
         p = subprocess.run(["lake", "build"], cwd=LEAN, stdout=subprocess.PIPE, stderr=subprocess.STDOUT,
                            text=True, timeout=3000)
     except FileNotFoundError as e:
         raise Infra("lake not found: %s" % e)
+    finally:
+        try:
+            fcntl.flock(lock, fcntl.LOCK_UN)
+        finally:
+            lock.close()
     return p.returncode == 0, p.stdout, time.time() - t0
 
 
